@@ -4,7 +4,7 @@
 // it is an opaque sort with an uninterpreted denotation over real values, and its constructors are
 // contract-only (R5): their denotations below are ASSUMED (listed in the trusted base).
 } // verus!  (opaque stand-in types, plain Rust)
-#[derive(PartialEq, Eq, PartialOrd, Ord, Clone, Debug)]
+#[derive(PartialEq, Eq, PartialOrd, Ord, Clone, Debug, Hash)]
 pub struct Runtype { _opaque: u8 }
 #[derive(Debug, Clone)]
 pub struct RuntypeUUID { _opaque: u8 }
@@ -127,15 +127,11 @@ impl Runtype {
     { unimplemented!() }
 }
 
-// R5 (contract-only, ASSUMED): the schema of an *object* atom, and the memoising entry point
+// R5 (contract-only, ASSUMED): the memoising entry point
 // `convert_to_schema` through which the atom schemas recurse into component types. Its Ref memo (the cut for
 // recursive types) is NOT modelled: the recursive call is assumed to denote the component type - the
 // statement proved for `convert_to_schema_no_cache`, used as induction hypothesis one level down.
 impl<'a, 'b> SchemerContext<'a, 'b> {
-    #[verifier::external_body]
-    fn mapping_atom_schema(&mut self, mt: &Rc<MappingAtomicType>) -> (r: Result<Runtype>)
-        ensures final(self).ctx == old(self).ctx, r is Ok ==> forall|x: RV| #[trigger] den(r->Ok_0, x) == mt_den(*old(self).ctx.0, **mt, false, x)
-    { unimplemented!() }
     #[verifier::external_body]
     pub fn convert_to_schema(&mut self, ty: &Rc<SemType>, name: Option<&RuntypeUUID>) -> (r: Result<Runtype>)
         ensures final(self).ctx == old(self).ctx,
@@ -280,6 +276,15 @@ pub uninterp spec fn rv_vu(x: RV) -> VoidUndefinedSubtype;
 pub uninterp spec fn rv_len(x: RV) -> nat;
 pub uninterp spec fn rv_at(x: RV, i: int) -> RV;
 pub uninterp spec fn rv_key(x: RV, i: int) -> RV;
+// own properties of an object: whether the object has the property named k, and its value
+pub uninterp spec fn rv_has(x: RV, k: Seq<char>) -> bool;
+pub uninterp spec fn rv_prop(x: RV, k: Seq<char>) -> RV;
+// the string k as a value (what an index signature's key type is asked about)
+pub uninterp spec fn rv_keyval(k: Seq<char>) -> RV;
+#[verifier::external_body]
+pub broadcast proof fn axiom_rv_keyval(k: Seq<char>)
+    ensures rv_ok(#[trigger] rv_keyval(k)), rv_tag(rv_keyval(k)) == SubTypeTag::String
+{}
 // the values C07's equation is stated for: of a visible tag, and so are all their components, hereditarily
 pub uninterp spec fn rv_ok(x: RV) -> bool;
 #[verifier::external_body]
@@ -288,6 +293,7 @@ pub broadcast proof fn axiom_rv_ok(x: RV)
     ensures visible(rv_tag(x)),
         forall|i: int| 0 <= i < rv_len(x) ==> rv_ok(#[trigger] rv_at(x, i)),
         forall|i: int| 0 <= i < rv_len(x) ==> rv_ok(#[trigger] rv_key(x, i)),
+        forall|k: Seq<char>| rv_has(x, k) ==> rv_ok(#[trigger] rv_prop(x, k)),
 {}
 
 // ---- what list / Set / Map atoms denote (definitional axioms of the model; object atoms stay uninterpreted)
@@ -426,6 +432,187 @@ pub broadcast proof fn lemma_map_atom(ctx: SemTypeContext, ip: IndexedProperties
         }
     }
 }
+// ---- what an OBJECT atom denotes (definitional axiom of the model), and what `Runtype::new(RuntypeKind::Object{..})`
+// denotes (ASSUMED, R5). A declared property k with type t: the value of the property belongs to t, an absent
+// property counts as the optional-property marker. Keys nobody declares fall under the index signature, if there is
+// one: HOW the three facts "the object has the key", "the key belongs to the signature's key type", "the property (or
+// its absence) fits the signature's value type" combine is left open on both sides (uninterpreted `idx_rule`: the
+// engine reads a signature exactly on the left and structurally on the right, the run-time validator rejects keys
+// outside the key type) - what is proved is that the schema and the atom agree on each of the three facts.
+pub uninterp spec fn idx_rule(has: bool, key_fits: bool, value_fits: bool) -> bool;
+pub open spec fn obj_field_ok(ctx: SemTypeContext, t: SemType, x: RV, k: Seq<char>) -> bool {
+    if rv_has(x, k) { mem(t, vabs(ctx, rv_prop(x, k))) } else { mem(t, Val::OptionalProp) }
+}
+pub open spec fn declared<V>(vs: Map<String, V>, k: Seq<char>) -> bool { exists|s: String| vs.contains_key(s) && #[trigger] s@ == k }
+pub open spec fn obj_idx_ok(ctx: SemTypeContext, ip: IndexedPropertiesAtomic, x: RV, k: Seq<char>) -> bool {
+    idx_rule(rv_has(x, k), mem(*ip.key, vabs(ctx, rv_keyval(k))), obj_field_ok(ctx, *ip.value, x, k))
+}
+pub open spec fn obj_shape_den(ctx: SemTypeContext, mt: MappingAtomicType, x: RV) -> bool {
+    &&& rv_tag(x) == SubTypeTag::Mapping
+    &&& forall|s: String| mt.vs@.contains_key(s) ==> #[trigger] obj_field_ok(ctx, *mt.vs@[s], x, s@)
+    &&& match mt.indexed_properties {
+        Some(ip) => forall|k: Seq<char>| !declared(mt.vs@, k) ==> #[trigger] obj_idx_ok(ctx, ip, x, k),
+        None => true,
+    }
+}
+#[verifier::external_body]
+pub broadcast proof fn axiom_obj_den(ctx: SemTypeContext, mt: MappingAtomicType, x: RV)
+    ensures #[trigger] mt_den(ctx, mt, false, x) == obj_shape_den(ctx, mt, x)
+{}
+// the Runtype side
+pub open spec fn opt_den(o: Optionality<Runtype>, x: RV, k: Seq<char>) -> bool {
+    match o {
+        Optionality::Optional(s) => !rv_has(x, k) || den(s, rv_prop(x, k)),
+        Optionality::Required(s) => rv_has(x, k) && den(s, rv_prop(x, k)),
+    }
+}
+pub open spec fn rt_idx_ok(b: IndexedProperty, x: RV, k: Seq<char>) -> bool {
+    idx_rule(rv_has(x, k), den(b.key, rv_keyval(k)), opt_den(b.value, x, k))
+}
+pub open spec fn object_den(vs: Map<String, Optionality<Runtype>>, ip: Option<Box<IndexedProperty>>, x: RV) -> bool {
+    &&& rv_tag(x) == SubTypeTag::Mapping
+    &&& forall|s: String| vs.contains_key(s) ==> #[trigger] opt_den(vs[s], x, s@)
+    &&& match ip {
+        Some(b) => forall|k: Seq<char>| !declared(vs, k) ==> #[trigger] rt_idx_ok(*b, x, k),
+        None => true,
+    }
+}
+pub open spec fn is_object_of(r: Runtype, vs: Map<String, Optionality<Runtype>>, ip: Option<Box<IndexedProperty>>) -> bool {
+    forall|x: RV| #[trigger] den(r, x) == object_den(vs, ip, x)
+}
+// R5: stand-in declaration of the one variant of `RuntypeKind` the materialisation builds directly
+pub enum RuntypeKind {
+    Object { vs: BTreeMap<String, Optionality<Runtype>>, indexed_properties: Option<Box<IndexedProperty>> },
+}
+impl Runtype {
+    #[verifier::external_body] pub fn new(kind: RuntypeKind) -> (r: Runtype)
+        ensures (match kind { RuntypeKind::Object { vs, indexed_properties } => is_object_of(r, vs@, indexed_properties) }) { unimplemented!() }
+    #[verifier::external_body] pub fn required(self) -> (r: Optionality<Runtype>) ensures r == Optionality::Required(self) { unimplemented!() }
+    #[verifier::external_body] pub fn optional(self) -> (r: Optionality<Runtype>) ensures r == Optionality::Optional(self) { unimplemented!() }
+}
+// T2: String's Ord is a lawful total order (what vstd's BTreeMap specifications ask of the key type)
+#[verifier::external_body]
+pub proof fn axiom_string_cmp()
+    ensures vstd::laws_cmp::obeys_cmp_spec::<String>()
+{}
+// R18: `BTreeMap::from_iter(v)` on a Vec of pairs (assumed std behaviour: later entries win)
+pub open spec fn last_wins<K, V>(s: Seq<(K, V)>, i: int) -> bool { forall|j: int| i < j < s.len() ==> s[j].0 != s[i].0 }
+pub open spec fn map_of_pairs<K, V>(pairs: Seq<(K, V)>, m: Map<K, V>) -> bool {
+    &&& forall|k: K| #[trigger] m.contains_key(k) ==> exists|i: int| 0 <= i < pairs.len() && pairs[i].0 == k
+    &&& forall|i: int| 0 <= i < pairs.len() && last_wins(pairs, i) ==> m.contains_key(#[trigger] pairs[i].0) && m[pairs[i].0] == pairs[i].1
+}
+#[verifier::external_body]
+pub fn vmap_from_vec<K: Ord, V>(it: Vec<(K, V)>) -> (r: BTreeMap<K, V>)
+    ensures map_of_pairs(it@, r@)
+{ BTreeMap::from_iter(it) }
+// "the field schema o stands for the component type t": optional exactly when t admits the optional-property marker
+pub open spec fn opt_stands_for(ctx: SemTypeContext, o: Optionality<Runtype>, t: SemType) -> bool {
+    match o {
+        Optionality::Optional(s) => bit(t.all, 64u32) && denotes(ctx, s, t),
+        Optionality::Required(s) => !bit(t.all, 64u32) && denotes(ctx, s, t),
+    }
+}
+pub proof fn lemma_mem_optional_marker(t: SemType)
+    ensures mem(t, Val::OptionalProp) == bit(t.all, 64u32)
+{
+    lemma_val();
+}
+pub proof fn lemma_field(ctx: SemTypeContext, o: Optionality<Runtype>, t: SemType, x: RV, k: Seq<char>)
+    requires opt_stands_for(ctx, o, t), rv_ok(x)
+    ensures opt_den(o, x, k) == obj_field_ok(ctx, t, x, k)
+{
+    axiom_rv_ok(x);
+    lemma_mem_optional_marker(t);
+    if rv_has(x, k) { assert(rv_ok(rv_prop(x, k))); }
+}
+// the index signature of the schema stands for the index signature of the atom
+pub open spec fn ip_stands_for_h(ctx: SemTypeContext, b: Option<Box<IndexedProperty>>, mt: MappingAtomicType, hyp: bool) -> bool {
+    match (b, mt.indexed_properties) {
+        (Some(b), Some(ip)) => hyp ==> denotes(ctx, b.key, *ip.key) && opt_stands_for(ctx, b.value, *ip.value),
+        (None, None) => true,
+        _ => false,
+    }
+}
+// the collected (key, field schema) pairs stand for the declared properties of the atom ...
+pub open spec fn acc_stands_for(ctx: SemTypeContext, mt: MappingAtomicType, pairs: Seq<(String, Optionality<Runtype>)>, hyp: bool) -> bool {
+    &&& forall|i: int| 0 <= i < pairs.len() ==> mt.vs@.contains_key(#[trigger] pairs[i].0) && (hyp ==> opt_stands_for(ctx, pairs[i].1, *mt.vs@[pairs[i].0]))
+    &&& forall|s: String| mt.vs@.contains_key(s) ==> exists|j: int| 0 <= j < pairs.len() && #[trigger] pairs[j].0 == s
+    &&& forall|i: int| 0 <= i < pairs.len() ==> #[trigger] last_wins(pairs, i)
+}
+// ... and so does the map built from them
+pub open spec fn vs_stands_for(ctx: SemTypeContext, mt: MappingAtomicType, vs: Map<String, Optionality<Runtype>>, hyp: bool) -> bool {
+    &&& forall|s: String| #[trigger] vs.contains_key(s) == mt.vs@.contains_key(s)
+    &&& forall|s: String| mt.vs@.contains_key(s) ==> (hyp ==> opt_stands_for(ctx, #[trigger] vs[s], *mt.vs@[s]))
+}
+pub broadcast proof fn lemma_pairs_to_map(ctx: SemTypeContext, mt: MappingAtomicType, pairs: Seq<(String, Optionality<Runtype>)>, vs: Map<String, Optionality<Runtype>>, hyp: bool)
+    requires #[trigger] map_of_pairs(pairs, vs), #[trigger] acc_stands_for(ctx, mt, pairs, hyp)
+    ensures vs_stands_for(ctx, mt, vs, hyp)
+{
+    assert forall|s: String| #[trigger] vs.contains_key(s) == mt.vs@.contains_key(s) by {
+        if vs.contains_key(s) { let i = choose|i: int| 0 <= i < pairs.len() && pairs[i].0 == s; assert(mt.vs@.contains_key(pairs[i].0)); }
+        if mt.vs@.contains_key(s) { let j = choose|j: int| 0 <= j < pairs.len() && #[trigger] pairs[j].0 == s; assert(last_wins(pairs, j)); assert(vs.contains_key(pairs[j].0)); }
+    }
+    assert forall|s: String| mt.vs@.contains_key(s) implies (hyp ==> opt_stands_for(ctx, #[trigger] vs[s], *mt.vs@[s])) by {
+        let j = choose|j: int| 0 <= j < pairs.len() && #[trigger] pairs[j].0 == s;
+        assert(last_wins(pairs, j));
+        assert(vs[pairs[j].0] == pairs[j].1);
+    }
+}
+pub broadcast proof fn lemma_obj_atom(ctx: SemTypeContext, mt: MappingAtomicType, vs: Map<String, Optionality<Runtype>>, b: Option<Box<IndexedProperty>>, r: Runtype, hyp: bool)
+    requires #[trigger] is_object_of(r, vs, b), #[trigger] vs_stands_for(ctx, mt, vs, hyp), #[trigger] ip_stands_for_h(ctx, b, mt, hyp),
+    ensures hyp ==> forall|x: RV| rv_ok(x) ==> #[trigger] den(r, x) == obj_shape_den(ctx, mt, x)
+{
+    if hyp {
+    assert forall|x: RV| rv_ok(x) implies #[trigger] den(r, x) == obj_shape_den(ctx, mt, x) by {
+        assert(den(r, x) == object_den(vs, b, x));
+        assert forall|s: String| mt.vs@.contains_key(s) implies opt_den(vs[s], x, s@) == obj_field_ok(ctx, *mt.vs@[s], x, s@) by {
+            lemma_field(ctx, vs[s], *mt.vs@[s], x, s@);
+        }
+        assert forall|k: Seq<char>| declared(vs, k) == declared(mt.vs@, k) by {
+            if declared(vs, k) { let s = choose|s: String| vs.contains_key(s) && #[trigger] s@ == k; assert(mt.vs@.contains_key(s) && s@ == k); }
+            if declared(mt.vs@, k) { let s = choose|s: String| mt.vs@.contains_key(s) && #[trigger] s@ == k; assert(vs.contains_key(s) && s@ == k); }
+        }
+        match (b, mt.indexed_properties) {
+            (Some(bb), Some(ip)) => {
+                assert forall|k: Seq<char>| rt_idx_ok(*bb, x, k) == obj_idx_ok(ctx, ip, x, k) by {
+                    lemma_field(ctx, bb.value, *ip.value, x, k);
+                    axiom_rv_keyval(k);
+                }
+                if object_den(vs, b, x) {
+                    assert forall|s: String| mt.vs@.contains_key(s) implies #[trigger] obj_field_ok(ctx, *mt.vs@[s], x, s@) by { assert(opt_den(vs[s], x, s@)); }
+                    assert forall|k: Seq<char>| !declared(mt.vs@, k) implies #[trigger] obj_idx_ok(ctx, ip, x, k) by { assert(rt_idx_ok(*bb, x, k)); }
+                }
+                if obj_shape_den(ctx, mt, x) {
+                    assert forall|s: String| vs.contains_key(s) implies #[trigger] opt_den(vs[s], x, s@) by { assert(obj_field_ok(ctx, *mt.vs@[s], x, s@)); }
+                    assert forall|k: Seq<char>| !declared(vs, k) implies #[trigger] rt_idx_ok(*bb, x, k) by { assert(obj_idx_ok(ctx, ip, x, k)); }
+                }
+            }
+            (None, None) => {
+                if object_den(vs, b, x) {
+                    assert forall|s: String| mt.vs@.contains_key(s) implies #[trigger] obj_field_ok(ctx, *mt.vs@[s], x, s@) by { assert(opt_den(vs[s], x, s@)); }
+                }
+                if obj_shape_den(ctx, mt, x) {
+                    assert forall|s: String| vs.contains_key(s) implies #[trigger] opt_den(vs[s], x, s@) by { assert(obj_field_ok(ctx, *mt.vs@[s], x, s@)); }
+                }
+            }
+            _ => {}
+        }
+    }
+    }
+}
+// an object atom's component types are in the fragment
+pub open spec fn mt_obj_ok(ctx: SemTypeContext, mt: MappingAtomicType) -> bool {
+    &&& forall|s: String| mt.vs@.contains_key(s) ==> ty_ok(ctx, *#[trigger] mt.vs@[s])
+    &&& match mt.indexed_properties { Some(ip) => ty_ok(ctx, *ip.key) && ty_ok(ctx, *ip.value), None => true }
+}
+// the entries a BTreeMap's iterator yields, against the map's view (what vstd's specification of `iter` gives
+// for a lawfully ordered key type)
+pub open spec fn kv_seq_ok<K, V>(s: Seq<(&K, &V)>, m: Map<K, V>) -> bool {
+    &&& s.len() == m.len()
+    &&& s.no_duplicates()
+    &&& forall|i: int| 0 <= i < s.len() ==> m.contains_key(*s[i].0) && m[*s[i].0] == *s[i].1
+    &&& forall|k: K| m.contains_key(k) ==> exists|i: int| 0 <= i < s.len() && *s[i].0 == k
+}
 // the component types stored in the context's tables are themselves in the fragment C07 is stated for
 pub open spec fn ty_ok(ctx: SemTypeContext, t: SemType) -> bool { wf(t) && flat(t) && kinds_ok(ctx, t) }
 pub open spec fn lt_ok(ctx: SemTypeContext, lt: ListAtomic) -> bool {
@@ -439,6 +626,7 @@ pub open spec fn tables_ok(ctx: SemTypeContext) -> bool {
     &&& forall|i: usize| list_defined(ctx, i) ==> lt_ok(ctx, #[trigger] list_def(ctx, i))
     &&& forall|i: usize| set_defined(ctx, i) ==> lt_ok(ctx, #[trigger] set_def(ctx, i))
     &&& forall|i: usize| map_defined(ctx, i) ==> mt_map_ok(ctx, #[trigger] map_def(ctx, i))
+    &&& forall|i: usize| mapping_defined(ctx, i) ==> mt_obj_ok(ctx, #[trigger] mapping_def(ctx, i))
 }
 pub open spec fn vabs(ctx: SemTypeContext, x: RV) -> Val {
     match rv_tag(x) {
